@@ -66,7 +66,7 @@ func (e *Engine) initState(fn *ssa.Function) (*State, *Frame, map[string]*Val) {
 }
 
 func (e *Engine) assumeSentinels(st *State) {
-	var terms []string
+	var terms, ptrs []string
 	var keys []string
 	for k := range e.sentinel {
 		keys = append(keys, k)
@@ -74,6 +74,12 @@ func (e *Engine) assumeSentinels(st *State) {
 	sort.Strings(keys)
 	for _, k := range keys {
 		t := e.heapGet(st, st.heap, k)
+		if e.heapSort(k) == sInt {
+			// a constant package-level pointer (e.g. base64.StdEncoding): non-nil, distinct from the other ones
+			ptrs = append(ptrs, t)
+			st.assume("(> " + t + " 0)")
+			continue
+		}
 		terms = append(terms, t)
 		if _, ok := e.specs.Funcs["isSentinel"]; ok {
 			st.assume("(isSentinel " + t + ")")
@@ -82,6 +88,9 @@ func (e *Engine) assumeSentinels(st *State) {
 	if len(terms) > 0 {
 		terms = append(terms, "nil_err")
 		st.assume("(distinct " + strings.Join(terms, " ") + ")")
+	}
+	if len(ptrs) > 1 {
+		st.assume("(distinct " + strings.Join(ptrs, " ") + ")")
 	}
 }
 
@@ -266,6 +275,7 @@ func (e *Engine) queryPrefix(st *State) string {
 // reachability sanity checks, where a quantifier makes the solvers answer `unknown`).
 func (e *Engine) queryPrefixOpt(st *State, dropQuant bool) string {
 	var b strings.Builder
+	e.axiomTexts() // registers the string literals the axioms mention before literals are declared
 	b.WriteString(preamble)
 	for _, d := range e.reg.decls {
 		b.WriteString(d)
@@ -337,6 +347,37 @@ func (e *Engine) relevantAxioms(query string) []string {
 	return out
 }
 
+// constStr / constBool evaluate a ground expression over string literals (++, cat2, ==, &&) in Go itself:
+// an axiom[computed] is a fact about literal text that the engine checks rather than assumes.
+func constStr(x *Expr) (string, bool) {
+	switch {
+	case x.Op == "str":
+		return x.S, true
+	case x.Op == "++" || (x.Op == "call" && x.S == "cat2"):
+		if len(x.Args) != 2 {
+			return "", false
+		}
+		a, ok1 := constStr(x.Args[0])
+		b, ok2 := constStr(x.Args[1])
+		return a + b, ok1 && ok2
+	}
+	return "", false
+}
+
+func constBool(x *Expr) (val, known bool) {
+	switch x.Op {
+	case "==":
+		a, ok1 := constStr(x.Args[0])
+		b, ok2 := constStr(x.Args[1])
+		return a == b, ok1 && ok2
+	case "&&":
+		a, ok1 := constBool(x.Args[0])
+		b, ok2 := constBool(x.Args[1])
+		return a && b, ok1 && ok2
+	}
+	return false, false
+}
+
 func (e *Engine) axiomTexts() []string {
 	if axiomDone {
 		return axiomCache
@@ -346,6 +387,12 @@ func (e *Engine) axiomTexts() []string {
 	for _, a := range e.specs.Axioms {
 		if a.Manual {
 			continue
+		}
+		if a.Computed {
+			if ok, known := constBool(a.E); !known || !ok {
+				e.errorf("axiom[computed] %s: does not evaluate to true over string literals", a.Name)
+				continue
+			}
 		}
 		ctx := &EvalCtx{e: e, st: scratch, vars: map[string]*Val{}}
 		v, err := ctx.evalAs(a.E, sBool)
